@@ -9,8 +9,9 @@ namespace Pdlv
 namespace Java
 
 
-theorem items_ref (en : Endian) (all : Items) (p : Enc Bytes) (pl : Nat) (v : Value) : ∀ (is : Items) (bs : Bytes),
-    wfItems is = true → Pdlv.encItems { e := en, mode := .ideal } all p pl v is = .ok bs → Java.encItems en v is = .ok bs
+theorem items_ref (en : Endian) (all : Items) (p : Bytes) (v : Value) : ∀ (is : Items) (bs : Bytes),
+    wfItems is = true → Pdlv.encItems { e := en, mode := .ideal } all (.ok p) p.length v is = .ok bs →
+      Java.encItems en all p v is = .ok bs
   | .nil, bs, _, h => by simpa [Pdlv.encItems, Java.encItems] using h
   | .cons i r, bs, hw, h => by
     cases i with
@@ -22,7 +23,7 @@ theorem items_ref (en : Endian) (all : Items) (p : Enc Bytes) (pl : Nat) (v : Va
       simp only [Pdlv.encItem, BEq.rfl] at ha
       obtain ⟨X, hX, h4⟩ := bind_ok _ _ _ ha
       simp only [Outcome.ok.injEq] at h4
-      simp only [Java.encItems, chunk_ref en all pl v fs hw.1 X hX, Outcome.bind, items_ref en all p pl v r b hw.2 hb, h4]
+      simp only [Java.encItems, chunk_ref en all p.length v fs hw.1 X hX, Outcome.bind, items_ref en all p v r b hw.2 hb, h4]
       exact h3
     | typedef a b c => simp [wfItems] at hw
     | optional a b c d => simp [wfItems] at hw
@@ -45,7 +46,9 @@ theorem java_packs_groups_up_to_32_bits (c : Cfg) (nm : String) (items : Items) 
   simp only [Java.encBody]
   split at h
   · cases h
-  · exact items_ref c.e items _ _ v items bs hw h
+  · rename_i p hp
+    simp only [hp]
+    exact items_ref c.e items p v items bs hw h
 
 /-- **C19, bit-field groups, parser side.**  For every packet or struct without parent made of bit-fields in groups of
     exactly 8, 16 or 32 bits (`Java.decWfItems`), both byte orders and EVERY byte string: the model of the emitted
@@ -75,6 +78,15 @@ theorem get24_keeps_the_low_octet :
     Java.decodeFull { e := .little } (.root "P" items) [0x56, 0x34, 0x12] = .ok (.obj [("a", .int 0x56)]) ∧
     Pdlv.decodeFull { e := .little, mode := .ideal } (.root "P" items) [0x56, 0x34, 0x12] = .ok (.obj [("a", .int 0x123456)]) := by
   refine ⟨by rfl, by rfl⟩
+
+/-- **KF-C19-signed-size**: `packet P { _size_(a): 8, a: 8[] }` — the size field is the whole 8-bit group, so the emitted
+    parser takes the raw `byte`: a size of 200 is `-56`, and the back end rejects its own output (`c8` followed by 200
+    octets), which the reference accepts -/
+theorem signed_size_rejects_own_output :
+    let items : Items := .cons (.chunk [.size "a" 8 0]) (.cons (.array "a" (.scalar 8) (.static 1) .sizeField none) .nil)
+    (Java.decodeFull { e := .little } (.root "P" items) (200 :: List.replicate 200 7)).isOk = false ∧
+    (Pdlv.decodeFull { e := .little, mode := .ideal } (.root "P" items) (200 :: List.replicate 200 7)).isOk = true := by
+  refine ⟨by decide +kernel, by decide +kernel⟩
 
 /-! non-vacuity: `packet P { a: 3, _fixed_ = 5 : 5, e: 16, _reserved_ : 8 }` is in the class -/
 example :
